@@ -56,7 +56,7 @@ Inductive mkind :=
 | MPubFn.       (* pub fn f(&self) (Rust) *)
 Record member := { m_kind : mkind; m_name : string }.
 
-Inductive ckind := CPlain | CExport | CAbstract | CExportAbstract.
+Inductive ckind := CPlain | CExport | CExportDefault | CAbstract | CExportAbstract.
 
 (* a class of a Python / TypeScript / JavaScript file as the parser reports it: name, position of the
    class node (1-based line of the `class` keyword, 0-based column), number of source lines of the
